@@ -605,8 +605,9 @@ def namespace():
     _cv = importlib.import_module('pane.convert')
     ns['ConverterHandlers'] = _cv.ConverterHandlers
     import pane.converters as _C
-    for _n in ('AnyConverter', 'StructConverter', 'LiteralConverter', 'ScalarConverter', 'DelegateConverter', 'TupleConverter', 'UnionConverter'):
-        ns[_n] = getattr(_C, _n)
+    for _n in dir(_C):
+        if _n.endswith('Converter'):
+            ns[_n] = getattr(_C, _n)
     ns['BASIC_CONVERTERS'] = _C._BASIC_CONVERTERS
     ns['BASIC_WITH_ARGS'] = _C._BASIC_WITH_ARGS
     ns['GLOBAL_HANDLERS'] = _cv._GLOBAL_HANDLERS
